@@ -19,21 +19,70 @@ use std::ops::ControlFlow;
 
 /// An `IntoValue` implementation whose objects are delivered in an explicit order and may hold
 /// duplicate keys; `Map::remove` is shift-remove or swap-remove depending on the run.
-pub struct SimValue(pub Doc);
+/// Where in the delivered document a value sits: a linked list towards the root, so that handing
+/// out a child costs one allocation. `None` in `SimValue::at` means "not part of a delivered
+/// document" (values the harness builds for rendering).
+#[derive(Clone)]
+pub struct At(Option<std::rc::Rc<AtNode>>);
 
-pub struct SimSeq(pub Vec<Doc>);
+pub struct AtNode {
+    step: Step,
+    parent: At,
+}
+
+impl At {
+    pub fn root() -> At {
+        At(None)
+    }
+    pub fn child(&self, step: Step) -> At {
+        At(Some(std::rc::Rc::new(AtNode { step, parent: self.clone() })))
+    }
+    pub fn path(&self) -> Path {
+        let mut rev = vec![];
+        let mut cur = self;
+        while let Some(n) = &cur.0 {
+            rev.push(n.step.clone());
+            cur = &n.parent;
+        }
+        rev.reverse();
+        rev
+    }
+    fn is_member(&self) -> bool {
+        matches!(&self.0, Some(n) if matches!(n.step, Step::Key(_)))
+    }
+}
+
+pub struct SimValue {
+    pub doc: Doc,
+    pub at: Option<At>,
+}
+
+impl SimValue {
+    /// the root of a delivered document
+    pub fn root(doc: Doc) -> SimValue {
+        SimValue { doc, at: Some(At::root()) }
+    }
+    /// a value that is not part of a delivered document
+    pub fn detached(doc: Doc) -> SimValue {
+        SimValue { doc, at: None }
+    }
+}
+
+pub struct SimSeq {
+    pub items: Vec<Doc>,
+    pub at: Option<At>,
+}
+
+impl SimSeq {
+    pub fn detached(items: Vec<Doc>) -> SimSeq {
+        SimSeq { items, at: None }
+    }
+}
 
 pub struct SimMap {
     pub entries: Vec<(String, Doc)>,
     pub swap: bool,
-}
-
-fn wrap(d: Doc) -> SimValue {
-    SimValue(d)
-}
-
-fn wrap_entry(e: (String, Doc)) -> (String, SimValue) {
-    (e.0, SimValue(e.1))
+    pub at: Option<At>,
 }
 
 impl IntoValue for SimValue {
@@ -41,39 +90,74 @@ impl IntoValue for SimValue {
     type Map = SimMap;
 
     fn kind(&self) -> ValueKind {
-        kind_to_deserr(self.0.kind())
+        kind_to_deserr(self.doc.kind())
     }
 
     fn into_value(self) -> Value<Self> {
-        match self.0 {
+        if let Some(at) = &self.at {
+            if at.is_member() {
+                history::log_source(Event::Decode { path: at.path() });
+            }
+        }
+        match self.doc {
             Doc::Null => Value::Null,
             Doc::Bool(b) => Value::Boolean(b),
             Doc::Int(x) => Value::Integer(x),
             Doc::Neg(x) => Value::NegativeInteger(x),
             Doc::Float(x) => Value::Float(x),
             Doc::Str(s) => Value::String(s),
-            Doc::Seq(v) => Value::Sequence(SimSeq(v)),
-            Doc::Map(m) => Value::Map(SimMap { entries: m, swap: history::swap_remove() }),
+            Doc::Seq(v) => Value::Sequence(SimSeq { items: v, at: self.at }),
+            Doc::Map(m) => Value::Map(SimMap { entries: m, swap: history::swap_remove(), at: self.at }),
         }
+    }
+}
+
+pub struct SimSeqIter {
+    inner: std::iter::Enumerate<std::vec::IntoIter<Doc>>,
+    at: Option<At>,
+}
+
+impl Iterator for SimSeqIter {
+    type Item = SimValue;
+    fn next(&mut self) -> Option<SimValue> {
+        let (i, doc) = self.inner.next()?;
+        Some(SimValue { doc, at: self.at.as_ref().map(|a| a.child(Step::Index(i))) })
     }
 }
 
 impl Sequence for SimSeq {
     type Value = SimValue;
-    type Iter = std::iter::Map<std::vec::IntoIter<Doc>, fn(Doc) -> SimValue>;
+    type Iter = SimSeqIter;
 
     fn len(&self) -> usize {
-        self.0.len()
+        self.items.len()
     }
 
     fn into_iter(self) -> Self::Iter {
-        self.0.into_iter().map(wrap as fn(Doc) -> SimValue)
+        SimSeqIter { inner: self.items.into_iter().enumerate(), at: self.at }
+    }
+}
+
+pub struct SimMapIter {
+    inner: std::vec::IntoIter<(String, Doc)>,
+    at: Option<At>,
+}
+
+impl Iterator for SimMapIter {
+    type Item = (String, SimValue);
+    fn next(&mut self) -> Option<(String, SimValue)> {
+        let (key, doc) = self.inner.next()?;
+        let at = self.at.as_ref().map(|a| {
+            history::log_source(Event::Deliver { at: a.path(), key: key.clone() });
+            a.child(Step::Key(key.clone()))
+        });
+        Some((key, SimValue { doc, at }))
     }
 }
 
 impl Map for SimMap {
     type Value = SimValue;
-    type Iter = std::iter::Map<std::vec::IntoIter<(String, Doc)>, fn((String, Doc)) -> (String, SimValue)>;
+    type Iter = SimMapIter;
 
     fn len(&self) -> usize {
         self.entries.len()
@@ -90,13 +174,11 @@ impl Map for SimMap {
             }
         });
         let (_, v) = if self.swap { self.entries.swap_remove(i) } else { self.entries.remove(i) };
-        Some(SimValue(v))
+        Some(SimValue { doc: v, at: self.at.as_ref().map(|a| a.child(Step::Key(key.to_string()))) })
     }
 
     fn into_iter(self) -> Self::Iter {
-        self.entries
-            .into_iter()
-            .map(wrap_entry as fn((String, Doc)) -> (String, SimValue))
+        SimMapIter { inner: self.entries.into_iter(), at: self.at }
     }
 }
 
@@ -249,7 +331,7 @@ impl<const K: u8> DeserializeError for SimErrT<K> {
         error: ErrorKind<V>,
         location: ValuePointerRef,
     ) -> ControlFlow<Self, Self> {
-        let kind = snap_kind(error);
+        let kind = history::quietly(|| snap_kind(error));
         let loc = to_path(location);
         let (self_id, mut reports) = match self_ {
             Some(s) => {
@@ -329,7 +411,23 @@ impl std::fmt::Display for UserErr {
         write!(f, "{}", self.token)
     }
 }
-impl std::error::Error for UserErr {}
+/// user errors wrap a lower-level cause, as real ones do: what the error type is handed (and what
+/// the built-in types print) is the user error, not the bottom of its `source()` chain
+#[derive(Debug)]
+pub struct RootCause;
+impl std::fmt::Display for RootCause {
+    fn fmt(&self, f: &mut std::fmt::Formatter<'_>) -> std::fmt::Result {
+        write!(f, "root cause (an implementation detail of the user error)")
+    }
+}
+impl std::error::Error for RootCause {}
+static ROOT_CAUSE: RootCause = RootCause;
+
+impl std::error::Error for UserErr {
+    fn source(&self) -> Option<&(dyn std::error::Error + 'static)> {
+        Some(&ROOT_CAUSE)
+    }
+}
 
 impl<const K: u8> MergeWithError<UserErr> for SimErrT<K> {
     fn merge(
@@ -383,7 +481,7 @@ impl<const ID: u32, E: DeserializeError> Deserr<E> for Probe<ID> {
         location: ValuePointerRef,
     ) -> Result<Self, E> {
         let path = to_path(location);
-        let doc = snap_value(value);
+        let doc = history::quietly(|| snap_value(value));
         let digest = doc.digest();
         let failed = history::leaf_fails(&path);
         log(Event::Visit { probe: ID, path: path.clone(), digest, failed });
